@@ -208,7 +208,7 @@ def include_args(ctx):
     ctx.check(ok, "emitted-args", "mako/codegen.py (visitIncludeTag)", "args= of <%include> are not passed to _include_file", "args forwarded as keyword arguments")
 
 
-@rule("C07.memo-keys", min_instances=4)
+@rule("C07.memo-keys", min_instances=4, props=["C09"])
 def memo_keys(ctx):
     """what is memoised under a key depends only on what the key holds: get_namespace keys on (calling namespace, uri), adjust_uri on (uri, base), and the generated module stores and reads its <%namespace>s under the same (module, name) key"""
     db = ctx.db
